@@ -12,7 +12,7 @@ from .. import evidence, findings, gen, hist, par, tlc, tracecheck
 from ..shims import import_dclab
 
 PID = "C04"
-CFG = ("INIT HHInit\nNEXT HHNext\nCONSTRAINT HCon\n"
+CFG = ("INIT HHInit\nNEXT {next}\nCONSTRAINT HCon\n"
        "INVARIANT ChildIsFilteredParent\nPROPERTY ManualStable\n"
        "CONSTANTS\n N = 5\n L = {L}\n Preds <- MCPreds\n MaxDepth = {d}\n"
        " Alternate = {alt}\nCHECK_DEADLOCK FALSE\n")
@@ -264,16 +264,21 @@ def main(tier, seed, replay=None):
     try:
         root_path = scratch / "root.rtdc"
         gen.write_rtdc(root_path, list(range(1, 6)), feats=FEATS)
-        plans = [(2, 6)] if q else [(2, 8), (3, 6), (1, 8)]
-        for L, d in plans:
-            res = tlc.run("MC_Hierarchy", CFG.format(L=L, d=d, alt="TRUE"),
+        plans = [(2, 6, "HHNext"), (2, 8, "FocusNext")] if q else [
+            (2, 8, "HHNext"), (3, 6, "HHNext"), (1, 8, "HHNext"),
+            (3, 10, "FocusNext"), (2, 10, "FocusNext")]
+        for L, d, nxt in plans:
+            res = tlc.run("MC_Hierarchy", CFG.format(L=L, d=d, alt="TRUE",
+                                                     next=nxt),
                           workers=8, timeout=3000)
             if not res.ok:
                 raise tlc.TLCError("HierarchySpec violates %s\n%s" % (
                     res.violated, res.cex))
-            ev.add_tlc("MC_Hierarchy L=%d depth %d (edit;rejuvenate)*" % (
-                L, d), res)
+            ev.add_tlc("MC_Hierarchy L=%d depth %d (edit;rejuvenate)* %s" % (
+                L, d, nxt), res)
             hs = res.tagged("H")
+            if q and nxt == "HHNext":
+                hs = par.sample(hs, 3, seed)
             if len(hs) > 200000:
                 k = len(hs) // 200000 + 1
                 hs = par.sample(hs, k, seed)
@@ -289,7 +294,8 @@ def main(tier, seed, replay=None):
                     rep.violation(viol[0], viol[1], case, size=viol[2])
         # free interleavings (simulated), judged by trace validation
         num = 600 if q else 15000
-        sim = tlc.run("MC_Hierarchy", CFG.format(L=3, d=12, alt="FALSE"),
+        sim = tlc.run("MC_Hierarchy", CFG.format(L=3, d=12, alt="FALSE",
+                                                 next="HHNext"),
                       workers=1, timeout=3000, simulate="num=%d" % num,
                       depth=13, seed=seed)
         ev.add_tlc("MC_Hierarchy simulate L=3 depth 12", sim)
